@@ -2,6 +2,7 @@ package characteristic
 
 import (
 	"fmt"
+	"math"
 	"net"
 
 	"github.com/xiam/to"
@@ -189,7 +190,15 @@ func (c *Characteristic) clampInt(value int) interface{} {
 func (c *Characteristic) convert(v interface{}) interface{} {
 	switch c.Format {
 	case FormatFloat:
-		return to.Float64(v)
+		f := to.Float64(v)
+		if math.IsNaN(f) || math.IsInf(f, 0) {
+			// not a value a characteristic can hold or encode, keep the current one
+			if current, ok := c.Value.(float64); ok {
+				return current
+			}
+			return float64(0)
+		}
+		return f
 	case FormatUInt8:
 		return int(to.Uint64(v))
 	case FormatUInt16:
